@@ -41,14 +41,19 @@ func (t *mixedTable) insert(k, v Value) {
 	if ok && t.array.setValue(i, v) {
 		return
 	}
+	if ok {
+		k = IntValue(i)
+	}
 	if t.hashTable.full() {
+		// Do not grow (and so rehash) the table if the key is present:
+		// assigning to an existing field is allowed during a traversal.
+		if t.hashTable.reset(k, v) {
+			return
+		}
 		t.grow()
 		if ok && t.array.setValue(i, v) {
 			return
 		}
-	}
-	if ok {
-		k = IntValue(i)
 	}
 	t.hashTable.set(k, v)
 }
